@@ -132,8 +132,12 @@ def check(ctx, src, tgt, radius, desc):
                             if RM[j, c]:
                                 pass   # a masked result masks its standard deviation too
                             elif mvar is None:
-                                if not math.isnan(sv_):
+                                # undefined: count <= 1 gives NaN; a vanishing denominator V1^2 - V2 (all but one contributing weight are 0) is a
+                                # division by zero in the code, inf or NaN - never a finite number
+                                if not (math.isnan(sv_) or (int(rep[1]) > 1 and math.isinf(sv_))):
                                     ctx.disagree("stddev", {**inp, "target": int(j), "channel": c}, float(sv_), "nan")
+                                if int(rep[1]) > 1:
+                                    ctx.count("stddev.undefined.zero_denominator")
                             elif wl.size and (wl.min() < 1e-6 * wl.max() or wl.max() < 1e-120):   # (or the squares of the weights underflow)
                                 ctx.count("stddev.skipped.ill_conditioned_weights")   # V1 - V2/V1 cancels when one weight dominates: float conditioning, not compared
                             elif mvar >= 0 and not (math.isnan(sv_) and mvar < 1e-18) and not abs(sv_ ** 2 - mvar) <= 1e-7 * max(1.0, mvar) + 1e-14 * float(np.abs(xs).max()) * math.sqrt(mvar + 1.0):
